@@ -39,14 +39,18 @@ ASSUMPTIONS = [
     'floating point equals integer division (checked by the tie on boundary values)',
     'terminate_flashing_cb is not set; progress reporting has no effect on what is sent',
 ]
-PROVED = ('Over the model of _internal_flash/upload_buffer/write_flash and the target model, for every image length >= 1, '
-          'every geometry, start or override page >= 0, either target address, every initial buffer/flash content, every '
-          'stale downlink queue and every script of flash-write fates: the image lies in flash exactly at start*page_size '
-          'when flashing reports success (honest acknowledgements), no flash byte outside the occupied pages changes and no '
-          'command leaves the buffer or the flash in any run, the other target is untouched, an image that does not fit is '
-          'refused with nothing sent, buffer-load frames are at most 32 bytes and partition each page at the right offsets, '
-          'a flash-write is sent at least once and at most six times, and a failed write ends the run with an error and '
-          'that command as the last frame.')
+PROVED = ('Twelve theorems (C12/Property.v), all closed under the global context, over the model of _internal_flash / '
+          'upload_buffer / write_flash and the target model, for every image length >= 1, every geometry (page size, buffer '
+          'pages 1..65535, flash pages 0..65535), start or override page >= 0, either target address, every initial '
+          'buffer/flash content, every stale downlink queue and every script of flash-write fates: success puts the image in '
+          'flash exactly at start*page_size (honest acknowledgements); in every run no flash byte outside the occupied '
+          'pages changes, no command leaves the buffer or the flash, sizes/geometry are unchanged and the other target is '
+          'untouched; an image that does not fit is refused with nothing sent; upload_buffer sends 25-byte payloads at '
+          'consecutive offsets that concatenate to the page (last one shorter, possibly empty); every frame of a run is <= 32 '
+          'bytes; the load frames of a run are the per-page uploads in page order, page i to buffer i mod buffer_pages, each '
+          'once, all delivered, and the page chunks partition the image; write_flash sends the same command 1..6 times, six '
+          'silent attempts or one negative answer make it fail; a run that does not succeed ends with an error and the failed '
+          'flash-write as its last frame.')
 NOT_PROVED = ('Loss of buffer-load packets, a target whose real geometry differs from the reported one, and replies '
               'forged or delayed across write commands (a positive acknowledgement of an earlier command arriving after '
               'the flush of the next) are outside the model; bytes of the last flash page beyond the image end take '
@@ -382,17 +386,19 @@ def nontrivial(case):
     return npg > bp or ln % ps != 0 or faulty
 
 
-def corpus_cases():
+def corpus_entries():
     import glob
     import json
     import os
     out = []
     for p in sorted(glob.glob(os.path.join(coqrun.VERIF, 'corpus', 'C12', '*.json'))):
-        try:
-            out.append(json.load(open(p))['case'])
-        except Exception:
-            pass
+        d = json.load(open(p))
+        out.append((d['case'], d.get('fault')))
     return out
+
+
+def corpus_cases():
+    return [c for (c, f) in corpus_entries()]
 
 
 def fixed_cases():
@@ -720,6 +726,12 @@ def oracle(ctx, deep=False):
     cases = corpus_cases() + fixed_cases() + pool
     seen = set()
     nontriv = 0
+    for (c, f) in corpus_entries():      # past witnesses, with the fault they were found under
+        if f is not None:
+            n += 1
+            r = check_case(c, f)
+            if r is not None and not any(x['class'] == r['class'] for x in fails):
+                fails.append(shrink(r))
     import time
     t0 = time.time()
     budget = 600 if ctx.thorough else 40
@@ -761,6 +773,7 @@ def shrink(failure):
             if 1 <= nl < ln:
                 c2 = copy.deepcopy(c)
                 c2['image'] = c2['image'][:nl]
+                c2.pop('image_formula', None)
                 cands.append(c2)
         if c.get('script'):
             c2 = copy.deepcopy(c)
